@@ -57,7 +57,7 @@ def parse(path):
                 toks.append(('EXTREF', mm2.group(1), None, None)); i += 1; continue
             mm2 = re.match(r'^(const )?(uint64_t|uint32_t) (\w+)(\[\w*\])?$', p)
             if mm2:
-                toks.append(('STRIDE', mm2.group(3), bool(mm2.group(4)), None)); i += 1; continue
+                toks.append(('STRIDE', mm2.group(3), bool(mm2.group(4)), mm2.group(2))); i += 1; continue
             print('PARAM? %d %s : %s' % (ln, name, p), file=sys.stderr); bad = True; break
         if bad:
             continue
@@ -105,6 +105,7 @@ def parse(path):
             if tgt is None or tgt['kind'] != 'ARR' or tgt['stride'] is not None:
                 print('STRIDE? %d %s (%s)' % (ln, line.strip(), t[1]), file=sys.stderr); ok = False; break
             tgt['stride'] = 'idx' if t[2] else 'uni'
+            tgt['w32'] = (t[3] == 'uint32_t')
         # the stride right after the output array belongs to it (add_avx(c, stride_c, ...)) -- handled by the _c suffix
         if not ok:
             continue
@@ -157,7 +158,8 @@ def parse(path):
         alias_a, alias_b = alias_args('a'), alias_args('b')
         decl = name + '(' + ', '.join(ps) + ')'
         rows.append(dict(line=ln, decl=decl, name=name, op=op, fam=fam, L=L, dA=dA, dB=dB, cA=cA or ins[0]['kind'] in ('SCALAR', 'EXTREF'), cB=ins[1]['const'] or ins[1]['kind'] in ('SCALAR', 'EXTREF'),
-                         A=kind(ins[0]), B=kind(ins[1]), C=kind(out, True), aux=('AUX_ARR' if aux and aux['kind'] == 'AUXARR' else 'AUX_REG' if aux else 'AUX_NONE'), args=args, alias_a=alias_a, alias_b=alias_b))
+                         A=kind(ins[0]), B=kind(ins[1]), C=kind(out, True), aux=('AUX_ARR' if aux and aux['kind'] == 'AUXARR' else 'AUX_REG' if aux else 'AUX_NONE'), args=args, alias_a=alias_a, alias_b=alias_b,
+                         w32=(1 if ins[0].get('w32') else 0) | (2 if ins[1].get('w32') else 0) | (4 if out.get('w32') else 0)))
     return rows
 
 
@@ -179,8 +181,8 @@ if __name__ == '__main__':
             call = 'Goldilocks3::%s(%s)' % (r['name'], ', '.join(r['args']))
             def lam(a):
                 return 'nullptr' if a is None else '[](TB &tb) { %s &t = static_cast<%s &>(tb); Goldilocks3::%s(%s); }' % (tt, tt, r['name'], ', '.join(a))
-            print('{"%s", %d, OP_%s, %d, %d, %s, %s, %d, %s, %s, %s, %s, [](TB &tb) { %s &t = static_cast<%s &>(tb); %s; }, %s, %s},' % (
+            print('{"%s", %d, OP_%s, %d, %d, %s, %s, %d, %s, %s, %s, %s, [](TB &tb) { %s &t = static_cast<%s &>(tb); %s; }, %s, %s, %d},' % (
                 r['decl'].replace('Goldilocks::', '').replace('Goldilocks3::', ''), r['line'], r['op'].upper(), r['L'], r['dA'], 'true' if r['cA'] else 'false', r['A'], r['dB'], 'true' if r['cB'] else 'false', r['B'], r['C'], r['aux'], tt, tt, call,
-                lam(r['alias_a']), lam(r['alias_b'])))
+                lam(r['alias_a']), lam(r['alias_b']), r['w32']))
         if fam == 'avx512':
             print('#endif')
